@@ -30,7 +30,10 @@ WITNESS_EXPRS = {
     "Empty": ["Pregex()"],
     "Group": ["Group('ab')", "Capture('ab')", "Capture('a', 'nm')", "Group('ab', is_case_insensitive=True)",
               "Capture('ab', 'größe')", "Capture(Capture('a', 'x') + 'b', 'naïve')", "Capture(Capture('a', 'x') + 'b', 'y')",
-              "NotFollowedBy(Pregex(), 'b')", "Conditional('x', 'a', 'b')", "Backreference('x')", "Group(Capture('a', 'in') + 'b')"],
+              "NotFollowedBy(Pregex(), 'b')", "Conditional('x', 'a', 'b')", "Backreference('x')", "Group(Capture('a', 'in') + 'b')",
+              # literals that look like group syntax (C08's quantifier names them)
+              "Group('a?:b')", "Group('(?P<x>')", "Capture('?:(', 'k')", "Group('x(?:y)', is_case_insensitive=True)",
+              "Group(Group('a?:') + '?:')", "Capture('(?P<q>')"],
     "Other": ["Pregex('ab')", "Pregex('a') + AnyDigit()", "Optional('a') + 'b'"],
     "Quantifier": ["Optional('a')", "AtLeastAtMost('ab', 2, 3)", "Indefinite(AnyDigit(), is_greedy=False)"],
     "Token": ["Pregex('a')", "Pregex('.')", "Backslash()", "Newline()"],
